@@ -417,33 +417,35 @@ def embed (T : Table) (i : Instr) : PCmd :=
 written, immediate, branch target); `stdExec` is one concrete `exec` (the base `Executor`) over a
 small memory, used for non-vacuity and by the driver — the theorems hold for every `exec`. -/
 
-def stdRoles (mn : String) : Option (List Role) :=
-  if mn = "set" then some [.dst, .imm]
-  else if mn = "qalloc" then some [.use]
-  else if mn = "qfree" then some [.use]
-  else if mn = "array" then some [.use, .addr]
-  else if mn = "store" then some [.use, .entry]
-  else if mn = "load" then some [.dst, .entry]
-  else if mn = "undef" then some [.entry]
-  else if mn = "lea" then some [.dst, .addr]
-  else if mn = "jmp" then some [.tgt]
-  else if mn = "bez" then some [.use, .tgt]
-  else if mn = "bnz" then some [.use, .tgt]
-  else if mn = "beq" then some [.use, .use, .tgt]
-  else if mn = "bne" then some [.use, .use, .tgt]
-  else if mn = "blt" then some [.use, .use, .tgt]
-  else if mn = "bge" then some [.use, .use, .tgt]
-  else if mn = "add" then some [.dst, .use, .use]
-  else if mn = "sub" then some [.dst, .use, .use]
-  else if mn = "addm" then some [.dst, .use, .use, .use]
-  else if mn = "subm" then some [.dst, .use, .use, .use]
-  else if mn = "ret_reg" then some [.named]
-  else if mn = "ret_arr" then some [.addr]
-  else none
+def stdRoleTable : List (String × List Role) := [
+  ("set", [.dst, .imm]),
+  ("qalloc", [.use]),
+  ("qfree", [.use]),
+  ("array", [.use, .addr]),
+  ("store", [.use, .entry]),
+  ("load", [.dst, .entry]),
+  ("undef", [.entry]),
+  ("lea", [.dst, .addr]),
+  ("jmp", [.tgt]),
+  ("bez", [.use, .tgt]),
+  ("bnz", [.use, .tgt]),
+  ("beq", [.use, .use, .tgt]),
+  ("bne", [.use, .use, .tgt]),
+  ("blt", [.use, .use, .tgt]),
+  ("bge", [.use, .use, .tgt]),
+  ("add", [.dst, .use, .use]),
+  ("sub", [.dst, .use, .use]),
+  ("addm", [.dst, .use, .use, .use]),
+  ("subm", [.dst, .use, .use, .use]),
+  ("ret_reg", [.named]),
+  ("ret_arr", [.addr])]
 
-def stdMnemonics : List String :=
-  ["set", "qalloc", "qfree", "array", "store", "load", "undef", "lea", "jmp", "bez", "bnz", "beq",
-   "bne", "blt", "bge", "add", "sub", "addm", "subm", "ret_reg", "ret_arr"]
+def lookupRoles (tbl : List (String × List Role)) (mn : String) : Option (List Role) :=
+  match tbl with
+  | [] => none
+  | (k, v) :: rest => if k = mn then some v else lookupRoles rest mn
+
+def stdRoles (mn : String) : Option (List Role) := lookupRoles stdRoleTable mn
 
 /-- role ↔ operand kind of the class (checked against the generated instruction table) -/
 def roleFits : Role → FieldKind → Bool
@@ -469,10 +471,13 @@ def immPositions : List Role → Nat → List Nat
   | r :: rs, j => (if r = .imm ∨ r = .tgt then [j] else []) ++ immPositions rs (j + 1)
 
 /-- decidable side condition: every immediate / branch-target position is in the exception table -/
-def excCovers (roles : String → Option (List Role)) (mns : List String) (exc : List (String × Nat)) : Bool :=
-  mns.all (fun mn => match roles mn with
-    | none => false
-    | some rs => (immPositions rs 0).all (fun j => exc.contains (mn, j)))
+def excCovers (tbl : List (String × List Role)) (exc : List (String × Nat)) : Bool :=
+  tbl.all (fun e => (immPositions e.2 0).all (fun j => exc.contains (e.1, j)))
+
+/-- the branch-target positions of a role table -/
+def tgtPositions : List Role → Nat → List Nat
+  | [], _ => []
+  | r :: rs, j => (if r = .tgt then [j] else []) ++ tgtPositions rs (j + 1)
 
 /-- memory of the concrete machine: arrays, shared memory, unit module -/
 structure StdMem where
